@@ -325,9 +325,18 @@ def take_restore(db, ctx):
     cr = db.one("create", "StatefulTokenizer")
     ok = any(n.get("k") == "Struct" and any(x["name"] == "top_path" and "Some" in render(x["e"]) for x in n["fields"]) for n, _ in walk(cr.hir))
     ctx.ob("create|top_path=Some", ok, "a fresh tokenizer starts with top_path = Some(Vec::new()): %s" % ok, fn=cr)
-    tolerant = "unwrap_or_else" in render(r.hir)
+    # the taken Option must be consumed by something that accepts None (unwrap_or_else / match / if let ..), never by unwrap/expect
+    tolerant = None
+    for c, ps in walk(r.hir):
+        is_take = (is_call(c) and path_ends(callee(c), ("mem::replace", "mem::take", "Option::take")) and "top_path" in render(c)) or \
+            (c.get("k") == "MethodCall" and c.get("method") == "take" and "top_path" in render(c["recv"]))
+        if is_take:
+            par = ps[-1] if ps else {}
+            strict = par.get("k") == "MethodCall" and par.get("method") in ("unwrap", "expect", "unwrap_unchecked") and peel(par["recv"]) is c
+            tolerant = (tolerant is None or tolerant) and not strict
+    tolerant = bool(tolerant)
     ctx.ob("resolve_best_path|tolerates-None", tolerant, "a tokenizer whose previous analysis failed after the take (top_path == None) still works: "
-                                                         "resolve_best_path falls back to a new Vec (unwrap_or_else): %s" % tolerant, fn=r)
+                                                         "the taken Option is not consumed by unwrap/expect (falls back to a new Vec): %s" % tolerant, fn=r)
 
 
 def reset_clears_results(db, ctx):
